@@ -393,11 +393,12 @@ static void vx_sb_reset(vx_sb *b) { b->n = 0; if (b->s) b->s[0] = 0; }
  * consecutive ticks the code under test is looping: fault kind VX_FAULT_HANG. */
 #define VX_FAULT_HANG 2
 static volatile uint64_t vx_opseq, vx_wd_seen;
+static volatile int vx_hangs_seen;
 static void vx_wd_handler(int sig)
 {
 	(void)sig;
 	if (vx_armed && vx_opseq == vx_wd_seen) {
-		vx_fault_kind = VX_FAULT_HANG;
+		vx_fault_kind = VX_FAULT_HANG; vx_hangs_seen++;
 		snprintf(vx_fault_msg, sizeof(vx_fault_msg), "no progress for one watchdog period (endless loop)");
 		siglongjmp(vx_jb, 1);
 	}
@@ -490,6 +491,8 @@ static void vx_bfs_run(vx_bfs *b)
 		for (int op = 0; op < b->nops; op++) {
 			if (b->load) b->load(save); else memcpy(b->live, save, b->size);
 			if (!b->enabled(op)) { b->disabled++; continue; }
+			/* faults that cost a watchdog period each must not be retried thousands of times */
+			if (vx_too_many_violations() || vx_hangs_seen >= 3) { b->capped = 1; break; }
 			b->cur_op = op;
 			b->transitions++;
 			if (b->apply(op)) continue;
@@ -518,15 +521,18 @@ static int vx_bfs_replay(vx_bfs *b, const char *text)
 	vx_store_init(&b->st, 1);
 	vx_store_add(&b->st, "", VX_NOPARENT, 0, 0);
 	b->cur = 0;
+	int pending = -1;	/* the last applied op is added to the store only when another one follows, so that
+				 * (cur, cur_op) name the same history as during the search (also for on_new probes) */
 	for (;;) {
 		while (*p == ' ') p++;
 		if (*p < '0' || *p > '9') break;
 		int op = (int)strtol(p, (char **)&p, 10);
+		if (pending >= 0) b->cur = vx_store_add(&b->st, "", (uint32_t)b->cur, (uint32_t)pending, 0);
 		if (op >= b->nops || !b->enabled(op)) { fprintf(stderr, "vx: replay diverged (op %d not enabled)\n", op); return -1; }
 		b->cur_op = op;
 		int r = b->apply(op);
 		if (r) return 1;
-		b->cur = vx_store_add(&b->st, "", (uint32_t)b->cur, (uint32_t)op, 0);
+		pending = op;
 	}
 	return 0;
 }
